@@ -306,6 +306,16 @@ def c15_cases(tier, seed):
             steps = [RESET, leaf(1, [1, n], small_vals(rnd, n), trk=trk[0]), leaf(2, [n], small_vals(rnd, n), trk=trk[1]),
                      {"op": "cost", "kind": "mse", "args": [1, 2], "res": 3}, {"op": "sum_all", "args": [3]}, backward(3)]
             cases.append(steps)
+    # ONE cost closure applied to outputs of different sizes in turn (a smaller last batch): the normalisation is
+    # by the CURRENT output's element count
+    for order in ([[2], [4], [2, 4], [1]], [[8], [2, 2], [1, 2], [4, 4]], [[1], [2, 1], [4]]):
+        steps = [RESET]
+        h = 1
+        for d in order:
+            steps += [leaf(h, d, small_vals(rnd, prod(d)), trk=True), leaf(h + 1, d, small_vals(rnd, prod(d))),
+                      {"op": "cost", "kind": "mse", "args": [h, h + 1], "res": h + 2}, {"op": "sum_all", "args": [h + 2]}, backward(h + 2)]
+            h += 3
+        cases.append(steps)
     # targets with MORE dimensions than the output: the cost array has a higher rank, its sum is over all of it
     for n in (1, 2):
         steps = [RESET, leaf(1, [2, n], small_vals(rnd, 2 * n), trk=True), leaf(2, [2, 2, n], small_vals(rnd, 4 * n)),
